@@ -14,7 +14,8 @@ for a in sys.argv[2:]:
         c.split_len={kk:int(v) for kk in c.split_len}
     else:
         c.cases[k]=[(int(x) if x.isdigit() else x) for x in v.split(',')]
-r=verify_function('/repo','/verif',q,{'procs':16})
+import os
+r=verify_function(os.environ.get('REPO','/repo'),'/verif',q,{'procs':16})
 print('error',r.error)
 print('gen',r.gen_s,'solve',r.solve_s,'queries',r.queries,'paths',r.paths)
 for k,v in r.obligations.items(): print(' ',v['status'],k,v['queries'],v['solver_s'])
